@@ -46,6 +46,7 @@ type C17Plan struct {
 	First    int                     `json:"first"`
 	EndPick  []int                   `json:"end_pick"` // successor choice when a task finishes
 	Order    verifhook.OrderPolicy   `json:"order"`
+	Hot      bool                    `json:"hot,omitempty"` // one hot operation on (almost) every task
 }
 
 type C17 struct{}
@@ -132,6 +133,7 @@ func (C17) NewPlan(r *core.Rand, tier string, i uint64) interface{} {
 	if pool == 3 {
 		h := genTaskOp(r, o, nShared, r.Intn(3), nil)
 		hot = &h
+		p.Hot = true
 	}
 	for t := 0; t < nTasks; t++ {
 		tp := TaskPlan{Env: genEnv(r)}
@@ -504,6 +506,9 @@ func (C17) Exec(pi interface{}) *core.RunResult {
 	}
 	if n >= 4 {
 		res.Probe("tasks>=4")
+	}
+	if p.Hot {
+		res.Probe("hot-op")
 	}
 	if len(p.Preempts) >= 4 {
 		res.Probe("preempt>=4")
